@@ -14,6 +14,7 @@ mod tape {
         /// search mode: Some(rng state) -> draws are synthesised (biased towards special values
         /// and towards values drawn before) and recorded on the tape
         pub static SEARCH: RefCell<Option<u64>> = RefCell::new(None);
+        pub static HINTS: RefCell<Vec<Option<u64>>> = RefCell::new(Vec::new());
     }
     fn rng(st: &mut u64) -> u64 {
         *st ^= *st << 13;
@@ -42,6 +43,44 @@ mod tape {
             _ => rng(st),
         };
         v.to_le_bytes()[..n].to_vec()
+    }
+    /// an 8-byte draw that, in search mode, takes the hinted value when there is one
+    pub fn next_suggest(hint: Option<u64>) -> u64 {
+        let searching = SEARCH.with(|s| s.borrow().is_some());
+        if searching {
+            if let Some(v) = hint {
+                // keep the random stream aligned with hint-less passes
+                SEARCH.with(|s| {
+                    let mut s = s.borrow_mut();
+                    let mut st = s.unwrap();
+                    rng(&mut st);
+                    *s = Some(st);
+                });
+                TAPE.with(|t| {
+                    let mut t = t.borrow_mut();
+                    t.0.push(v.to_le_bytes().to_vec());
+                    t.1 += 1;
+                });
+                return v;
+            }
+            let v = SEARCH.with(|s| {
+                let mut s = s.borrow_mut();
+                let mut st = s.unwrap();
+                let v = rng(&mut st) % 4;
+                *s = Some(st);
+                v
+            });
+            TAPE.with(|t| {
+                let mut t = t.borrow_mut();
+                t.0.push(v.to_le_bytes().to_vec());
+                t.1 += 1;
+            });
+            return v;
+        }
+        let b = next(8);
+        let mut a = [0u8; 8];
+        a.copy_from_slice(&b);
+        u64::from_le_bytes(a)
     }
     /// an 8-byte draw that, in search mode, is uniform in lo..hi
     pub fn next_in(lo: u64, hi: u64) -> u64 {
@@ -148,6 +187,46 @@ draw!(any_u32, u32, 4);
 draw!(any_u64, u64, 8);
 draw!(any_i64, i64, 8);
 draw!(any_usize, usize, 8);
+
+/// A u64 draw for which the caller may know the only value that keeps the run inside the
+/// assumed region (`hint`). Under Kani the hint is ignored (`any()`); in native search mode the
+/// hint is used when present; in replay the recorded value is returned.
+#[cfg(kani)]
+#[inline(always)]
+pub fn any_u64_suggest(_hint: Option<u64>) -> u64 {
+    kani::any()
+}
+#[cfg(not(kani))]
+pub fn any_u64_suggest(hint: Option<u64>) -> u64 {
+    tape::next_suggest(hint)
+}
+/// Hint store used by shims across the passes of one native search trial (no-ops under Kani).
+#[cfg(not(kani))]
+pub fn hint_get(slot: usize) -> Option<u64> {
+    tape::HINTS.with(|h| h.borrow().get(slot).copied().flatten())
+}
+#[cfg(not(kani))]
+pub fn hint_set(slot: usize, v: u64) {
+    tape::HINTS.with(|h| {
+        let mut h = h.borrow_mut();
+        if h.len() <= slot {
+            h.resize(slot + 1, None);
+        }
+        h[slot] = Some(v);
+    })
+}
+#[cfg(not(kani))]
+pub fn hints_clear() {
+    tape::HINTS.with(|h| h.borrow_mut().clear())
+}
+#[cfg(kani)]
+#[inline(always)]
+pub fn hint_get(_slot: usize) -> Option<u64> {
+    None
+}
+#[cfg(kani)]
+#[inline(always)]
+pub fn hint_set(_slot: usize, _v: u64) {}
 
 /// A value in `lo..hi` (`hi` exclusive, `lo < hi`). Under Kani: `any()` constrained by an
 /// assumption; in native search mode: drawn uniformly from the range (so that scheduling and
